@@ -31,6 +31,7 @@ import (
 	"fmt"
 	"os"
 	"path/filepath"
+	"strconv"
 	"strings"
 
 	"github.com/tsawler/tabula"
@@ -491,6 +492,7 @@ func runLazy(c *hx.Ctx, idx int) {
 		name = name[:i]
 	}
 	c.Count("lazy-doc fault=" + name)
+	runPageCalls(c, r, k, path, name, npages)
 	if sawError {
 		c.Count("lazy-doc with a failing call")
 	}
@@ -498,4 +500,62 @@ func runLazy(c *hx.Ctx, idx int) {
 	// non-trivial: some call alone fails after a successful open (a faulty document), or the
 	// control shows its text
 	c.Case("lazy"+tree+fault+k.Steps, sawError || (strings.HasPrefix(fault, "none") && sawText))
+}
+
+// runPageCalls: PageCount / GetPage(i) histories on one reader against Model/ReaderHist.lean
+// (op c03.pages). The facts of the file follow from the fault the generator planted: no root
+// dictionary, or a walk that fails, or the pages.
+func runPageCalls(c *hx.Ctx, r *hx.Rng, k lazyCase, path, fault string, npages int) {
+	root, walk := "1", strconv.Itoa(npages)
+	switch fault {
+	case "catalog-without-pages", "catalog-pages-integer":
+		root = "0"
+	case "count-not-integer":
+		return // the model needs to know whether the node is the root
+	default:
+		for _, f := range lazyTreeFaults {
+			if f == fault {
+				walk = "-"
+			}
+		}
+	}
+	var calls, got []string
+	var seq []int
+	for n := r.Range(3, 7); n > 0; n-- {
+		if r.Chance(1, 3) {
+			calls = append(calls, "c")
+			seq = append(seq, -1)
+		} else {
+			i := r.Intn(npages + 2)
+			calls = append(calls, fmt.Sprintf("p%d", i))
+			seq = append(seq, i)
+		}
+	}
+	k.Steps = "r := reader.Open(f); page calls " + strings.Join(calls, ",")
+	ok := false
+	c.Guard("C03/lazy", k, 30, func() {
+		rd, err := reader.Open(path)
+		if err != nil {
+			return
+		}
+		defer rd.Close()
+		ok = true
+		for _, i := range seq {
+			if i < 0 {
+				if n, err := rd.PageCount(); err != nil {
+					got = append(got, "err")
+				} else {
+					got = append(got, fmt.Sprintf("c%d", n))
+				}
+			} else if pg, err := rd.GetPage(i); err != nil || pg == nil {
+				got = append(got, "err")
+			} else {
+				got = append(got, fmt.Sprintf("p%d", i))
+			}
+		}
+	})
+	if ok {
+		c.Op("c03.pages "+root+" 1 "+walk+" "+strings.Join(calls, ","), strings.Join(got, ","))
+		c.Count("page-calls root=" + root + " walk-fails=" + strconv.FormatBool(walk == "-"))
+	}
 }
